@@ -248,46 +248,58 @@ def run(tier='quick', seed=0):
             out.append((qn, tcls, req))
         return sorted(out, key=lambda r: (r[0], str(r[1]), r[2]))
 
-    for tkey in sorted(xsdspec.ALL_CT):
-        cn = ct_class_name(tkey)
-        cls = getattr(CT, cn, None)
-        oid = f'C03/attributes/{tkey}'
-        if cls is None:
-            ob(f'C03/complex-type-class/{tkey}', False, f'no class {cn}',
-               replay_src=f"import musicxml.xsd.xsdcomplextype as CT\nsys.exit(0 if hasattr(CT,{cn!r}) else 1)\n")
-            continue
-        want = want_table(xsdspec.ATTRS[tkey])
-        src = (f"import musicxml.xsd.xsdcomplextype as CT\ntry:\n    got=sorted((a.name, getattr(a.type_,'__name__',None), bool(a.is_required)) for a in CT.{cn}.get_xsd_attributes())\nexcept Exception as e:\n    got=repr(e)\n"
-               f"want={want!r}\nprint('library:',got)\nprint('schema :',want)\nsys.exit(0 if got==[tuple(w) for w in want] else 1)\n")
-        try:
-            got = attr_table(cls.get_xsd_attributes())
-            # anonymous attribute types (xml:space) have no named class: compare name and required only
-            ok = len(got) == len(want) and all(g[0] == w[0] and g[2] == w[2] and (w[1] is None or g[1] == w[1]) for g, w in zip(sorted(got), want))
-            detail = None if ok else f'{cn}.get_xsd_attributes() = {sorted(set(got) - set(want))[:4]} ... vs schema {sorted(set(want) - set(got), key=str)[:4]}'
-        except Exception as ex:
-            ok, detail = False, f'{cn}.get_xsd_attributes() raises {type(ex).__name__}: {ex}'
-        ob(oid, ok, detail, replay_src=src)
-        base = xsdspec.simple_content_base(xsdspec.ALL_CT[tkey])
-        wantsc = class_name_for(base) if base else None
-        gotsc = getattr(cls._SIMPLE_CONTENT, '__name__', None)
-        ob(f'C03/simple-content/{tkey}', gotsc == wantsc, f'{cn}._SIMPLE_CONTENT is {gotsc}, schema says {base}',
-           replay_src=f"import musicxml.xsd.xsdcomplextype as CT\ng=getattr(CT.{cn}._SIMPLE_CONTENT,'__name__',None)\nprint(g)\nsys.exit(0 if g=={wantsc!r} else 1)\n")
-    for g in sorted(xsdspec.AGROUP_ATTRS):
-        cn = agroup_class_name(g)
-        cls = getattr(AT, cn, None)
-        want = want_table(xsdspec.AGROUP_ATTRS[g])
-        if cls is None:
-            ob(f'C03/attribute-group/{g}', False, f'no class {cn}', replay_src=f"import musicxml.xsd.xsdattribute as AT\nsys.exit(0 if hasattr(AT,{cn!r}) else 1)\n")
-            continue
-        src = (f"import musicxml.xsd.xsdattribute as AT\ntry:\n    got=sorted((a.name, getattr(a.type_,'__name__',None), bool(a.is_required)) for a in AT.{cn}.get_xsd_attributes())\nexcept Exception as e:\n    got=repr(e)\n"
-               f"want={want!r}\nprint('library:',got)\nprint('schema :',want)\nsys.exit(0 if got==[tuple(w) for w in want] else 1)\n")
-        try:
-            got = attr_table(cls.get_xsd_attributes())
-            ok = len(got) == len(want) and all(gg[0] == w[0] and gg[2] == w[2] and (w[1] is None or gg[1] == w[1]) for gg, w in zip(sorted(got), want))
-            detail = None if ok else f'{cn}: library {sorted(set(got) - set(want))[:4]} vs schema {sorted(set(want) - set(got), key=str)[:4]}'
-        except Exception as ex:
-            ok, detail = False, f'{cn}.get_xsd_attributes() raises {type(ex).__name__}: {ex}'
-        ob(f'C03/attribute-group/{g}', ok, detail, replay_src=src)
+    # two passes: the second one sees every lazily built shared table already filled (history independence)
+    ct_order = [ct_class_name(t) for t in sorted(xsdspec.ALL_CT)]
+    ag_order = [agroup_class_name(g) for g in sorted(xsdspec.AGROUP_ATTRS)]
+
+    def warm_prefix(cts, ags):
+        """replays re-create the exact evaluation history that precedes the obligation (shared lazy tables are pre-state)"""
+        return ("import musicxml.xsd.xsdcomplextype as _CT, musicxml.xsd.xsdattribute as _AT\n"
+                f"for _n in {cts!r}:\n    try: getattr(_CT, _n).get_xsd_attributes()\n    except Exception: pass\n"
+                f"for _n in {ags!r}:\n    try: getattr(_AT, _n).get_xsd_attributes()\n    except Exception: pass\n")
+    for sfx in ('', '/warmed'):
+        for tkey in sorted(xsdspec.ALL_CT):
+            cn = ct_class_name(tkey)
+            cls = getattr(CT, cn, None)
+            oid = f'C03/attributes/{tkey}' + sfx
+            if cls is None:
+                ob(f'C03/complex-type-class/{tkey}', False, f'no class {cn}',
+                   replay_src=f"import musicxml.xsd.xsdcomplextype as CT\nsys.exit(0 if hasattr(CT,{cn!r}) else 1)\n")
+                continue
+            want = want_table(xsdspec.ATTRS[tkey])
+            pre = warm_prefix(ct_order + ag_order if False else (ct_order if sfx else ct_order[:ct_order.index(cn)]), ag_order if sfx else [])
+            src = pre + (f"import musicxml.xsd.xsdcomplextype as CT\ntry:\n    got=sorted((a.name, getattr(a.type_,'__name__',None), bool(a.is_required)) for a in CT.{cn}.get_xsd_attributes())\nexcept Exception as e:\n    got=repr(e)\n"
+                   f"want={want!r}\nprint('library:',got)\nprint('schema :',want)\nsys.exit(0 if got==[tuple(w) for w in want] else 1)\n")
+            try:
+                got = attr_table(cls.get_xsd_attributes())
+                # anonymous attribute types (xml:space) have no named class: compare name and required only
+                ok = len(got) == len(want) and all(g[0] == w[0] and g[2] == w[2] and (w[1] is None or g[1] == w[1]) for g, w in zip(sorted(got), want))
+                detail = None if ok else f'{cn}.get_xsd_attributes() = {sorted(set(got) - set(want))[:4]} ... vs schema {sorted(set(want) - set(got), key=str)[:4]}'
+            except Exception as ex:
+                ok, detail = False, f'{cn}.get_xsd_attributes() raises {type(ex).__name__}: {ex}'
+            ob(oid, ok, detail, replay_src=src)
+            base = xsdspec.simple_content_base(xsdspec.ALL_CT[tkey])
+            wantsc = class_name_for(base) if base else None
+            gotsc = getattr(cls._SIMPLE_CONTENT, '__name__', None)
+            ob(f'C03/simple-content/{tkey}' + sfx, gotsc == wantsc, f'{cn}._SIMPLE_CONTENT is {gotsc}, schema says {base}',
+               replay_src=f"import musicxml.xsd.xsdcomplextype as CT\ng=getattr(CT.{cn}._SIMPLE_CONTENT,'__name__',None)\nprint(g)\nsys.exit(0 if g=={wantsc!r} else 1)\n")
+        for g in sorted(xsdspec.AGROUP_ATTRS):
+            cn = agroup_class_name(g)
+            cls = getattr(AT, cn, None)
+            want = want_table(xsdspec.AGROUP_ATTRS[g])
+            if cls is None:
+                ob(f'C03/attribute-group/{g}', False, f'no class {cn}', replay_src=f"import musicxml.xsd.xsdattribute as AT\nsys.exit(0 if hasattr(AT,{cn!r}) else 1)\n")
+                continue
+            pre = warm_prefix(ct_order, ag_order if sfx else ag_order[:ag_order.index(cn)])
+            src = pre + (f"import musicxml.xsd.xsdattribute as AT\ntry:\n    got=sorted((a.name, getattr(a.type_,'__name__',None), bool(a.is_required)) for a in AT.{cn}.get_xsd_attributes())\nexcept Exception as e:\n    got=repr(e)\n"
+                   f"want={want!r}\nprint('library:',got)\nprint('schema :',want)\nsys.exit(0 if got==[tuple(w) for w in want] else 1)\n")
+            try:
+                got = attr_table(cls.get_xsd_attributes())
+                ok = len(got) == len(want) and all(gg[0] == w[0] and gg[2] == w[2] and (w[1] is None or gg[1] == w[1]) for gg, w in zip(sorted(got), want))
+                detail = None if ok else f'{cn}: library {sorted(set(got) - set(want))[:4]} vs schema {sorted(set(want) - set(got), key=str)[:4]}'
+            except Exception as ex:
+                ok, detail = False, f'{cn}.get_xsd_attributes() raises {type(ex).__name__}: {ex}'
+            ob(f'C03/attribute-group/{g}' + sfx, ok, detail, replay_src=src)
 
     # (e) simple types
     for spec, cn in sorted(spec_types().items()):
